@@ -57,3 +57,202 @@ Definition st_to_json (p1 p2 d1 d2 : N) (fold : option N) (l : list (list cell *
   ++ [123; 32; 34; p1; 34; 58; 32; 123; 32; 34] ++ adec d1 ++ [34; 58; 32; 91; 93; 32; 125; 44; 32; 34; p2; 34; 58; 32; 123; 32; 34]
   ++ adec d2 ++ [34; 58; 32; 91; 93; 32; 125; 32; 125]
   ++ [10; 93; 10].
+
+(** ---------- reader: serde_json::from_str on a SUBSET of JSON, then from_json_aladin_internal ----------
+    The subset ([JOut] = outside, no claim): ASCII documents made of the six punctuation characters, the
+    JSON white space (space, \t, \n, \r), strings without escape (double quote, characters in 32..127 other than the
+    double quote and the backslash, double quote), unsigned integers without leading zero below 2^64, not followed by '.', 'e', 'E';
+    nesting of at most 100 containers (serde_json's recursion limit is 128).  Inside the subset the
+    grammar is JSON's: a document that is not ONE value is rejected, and so it is by serde_json.
+    An object keeps the LAST value of a repeated key (serde_json::Map::insert). *)
+Inductive jtok := JLB | JRB | JLK | JRK | JCol | JCom | JStr (s : list N) | JNum (v : N).
+Inductive lmode := LIdle | LNum (ds : list N) | LStr (cs : list N).
+
+Definition fin_num (ds : list N) : option jtok :=
+  match ds with
+  | d :: _ :: _ => if d =? 48 then None else if dval ds <? 2 ^ 64 then Some (JNum (dval ds)) else None
+  | _ => if dval ds <? 2 ^ 64 then Some (JNum (dval ds)) else None
+  end.
+
+Definition idle_step (c : N) (acc : list jtok) : option (lmode * list jtok) :=
+  if is_ws c then Some (LIdle, acc)
+  else if is_digit c then Some (LNum [c], acc)
+  else if c =? 34 then Some (LStr [], acc)
+  else if c =? 123 then Some (LIdle, acc ++ [JLB])
+  else if c =? 125 then Some (LIdle, acc ++ [JRB])
+  else if c =? 91 then Some (LIdle, acc ++ [JLK])
+  else if c =? 93 then Some (LIdle, acc ++ [JRK])
+  else if c =? 58 then Some (LIdle, acc ++ [JCol])
+  else if c =? 44 then Some (LIdle, acc ++ [JCom])
+  else None.
+
+Fixpoint jlex (m : lmode) (s : list N) (acc : list jtok) : option (list jtok) :=
+  match s with
+  | [] => match m with
+          | LIdle => Some acc
+          | LNum ds => match fin_num ds with Some t => Some (acc ++ [t]) | None => None end
+          | LStr _ => None
+          end
+  | c :: r =>
+    match m with
+    | LIdle => match idle_step c acc with Some (m', acc') => jlex m' r acc' | None => None end
+    | LNum ds => if is_digit c then jlex (LNum (ds ++ [c])) r acc
+                 else if (c =? 46) || (c =? 101) || (c =? 69) then None
+                 else match fin_num ds with
+                      | Some t => match idle_step c (acc ++ [t]) with Some (m', acc') => jlex m' r acc' | None => None end
+                      | None => None
+                      end
+    | LStr cs => if c =? 34 then jlex LIdle r (acc ++ [JStr cs])
+                 else if (c <? 32) || (c =? 92) || (127 <? c) then None
+                 else jlex (LStr (cs ++ [c])) r acc
+    end
+  end.
+
+(** deepest nesting of the token list *)
+Definition nest_step (st : N * N) (t : jtok) : N * N :=
+  match t with
+  | JLB | JLK => (fst st + 1, N.max (snd st) (fst st + 1))
+  | JRB | JRK => (fst st - 1, snd st)
+  | _ => st
+  end.
+Definition max_nest (ts : list jtok) : N := snd (fold_left nest_step ts (0, 0)).
+
+(** the value tree and the pushdown parser (explicit stack: structural on the token list) *)
+Inductive jv := VNum (n : N) | VStr (s : list N) | VArr (l : list jv) | VObj (l : list (list N * jv)).
+Inductive frame := FArr (done : list jv) | FObj (done : list (list N * jv)) (key : list N).
+Inductive pmode :=
+| PVal | PArr0 | PArrNext (done : list jv)
+| PObj0 | PObjKey (done : list (list N * jv)) | PObjColon (done : list (list N * jv)) (key : list N)
+| PObjNext (done : list (list N * jv)) | PEnd (v : jv).
+
+Definition deliver (v : jv) (K : list frame) : pmode * list frame :=
+  match K with
+  | [] => (PEnd v, [])
+  | FArr done :: K' => (PArrNext (done ++ [v]), K')
+  | FObj done key :: K' => (PObjNext (done ++ [(key, v)]), K')
+  end.
+
+Definition pval (t : jtok) (K : list frame) : option (pmode * list frame) :=
+  match t with
+  | JNum n => Some (deliver (VNum n) K)
+  | JStr s => Some (deliver (VStr s) K)
+  | JLK => Some (PArr0, K)
+  | JLB => Some (PObj0, K)
+  | _ => None
+  end.
+
+Definition pstep (m : pmode) (K : list frame) (t : jtok) : option (pmode * list frame) :=
+  match m with
+  | PVal => pval t K
+  | PArr0 => match t with JRK => Some (deliver (VArr []) K) | _ => pval t (FArr [] :: K) end
+  | PArrNext done => match t with
+                     | JCom => Some (PVal, FArr done :: K)
+                     | JRK => Some (deliver (VArr done) K)
+                     | _ => None end
+  | PObj0 => match t with
+             | JRB => Some (deliver (VObj []) K)
+             | JStr k => Some (PObjColon [] k, K)
+             | _ => None end
+  | PObjKey done => match t with JStr k => Some (PObjColon done k, K) | _ => None end
+  | PObjColon done k => match t with JCol => Some (PVal, FObj done k :: K) | _ => None end
+  | PObjNext done => match t with
+                     | JCom => Some (PObjKey done, K)
+                     | JRB => Some (deliver (VObj done) K)
+                     | _ => None end
+  | PEnd _ => None
+  end.
+
+Fixpoint prun (m : pmode) (K : list frame) (ts : list jtok) : option jv :=
+  match ts with
+  | [] => match m, K with PEnd v, [] => Some v | _, _ => None end
+  | t :: r => match pstep m K t with Some (m', K') => prun m' K' r | None => None end
+  end.
+
+Inductive jparsed := JOut | JReject | JVal (v : jv).
+Definition jparse (s : list N) : jparsed :=
+  match jlex LIdle s [] with
+  | None => JOut
+  | Some ts => if 100 <? max_nest ts then JOut
+               else match prun PVal [] ts with Some v => JVal v | None => JReject end
+  end.
+
+(** from_json_aladin_internal *)
+Fixpoint jlookup (k : list N) (l : list (list N * jv)) : option jv :=
+  match l with
+  | [] => None
+  | (k', v) :: t => match jlookup k t with
+                    | Some x => Some x
+                    | None => if list_eqb k k' then Some v else None
+                    end
+  end.
+
+Definition nums_of (l : list jv) : list N :=
+  flat_map (fun v => match v with VNum n => [n] | _ => [] end) l.
+
+Fixpoint jcells (q : qty) (m : list (list N * jv)) (ds : list N) (dmax : N) (l_acc : list aelem) : ares (N * list aelem) :=
+  match ds with
+  | [] => AOk (dmax, l_acc)
+  | d :: t =>
+    match jlookup (adec d) m with
+    | Some (VArr l) =>
+        if forallb (fun v => v <? n_cells q d) (nums_of l)
+        then jcells q m t (N.max dmax d) (l_acc ++ map (ECell d) (nums_of l))
+        else AErr AEIndex
+    | _ => jcells q m t dmax l_acc
+    end
+  end.
+
+Section JReader.
+  Variable sortf : qty -> list aelem -> list aelem.
+
+  Definition json_value_1d (q : qty) (w : N) (v : jv) : ares (N * list aelem) :=
+    match v with
+    | VObj m =>
+      match jcells q m (anseq 0 (S (N.to_nat (max_depth q w)))) 0 [] with
+      | AErr e => AErr e
+      | AOk (dm, l) => let l' := sortf q l in
+                       if adj_ok q w l' then AOk (dm, l') else AErr AENotValid
+      end
+    | _ => AErr AEParse
+    end.
+
+  Inductive jres := JROut | JRRes (r : ares (N * list aelem)).
+  Definition from_json (q : qty) (w : N) (s : list N) : jres :=
+    match jparse s with
+    | JOut => JROut
+    | JReject => JRRes (AErr AEParse)
+    | JVal v => JRRes (json_value_1d q w v)
+    end.
+
+  (** cellmoc2d_from_json_aladin *)
+  Inductive j2res := J2Out | J2Err | J2Ok (d1 d2 : N) (l : list st_elem).
+
+  Fixpoint j2loop (q1 : qty) (w1 : N) (q2 : qty) (w2 : N) (p1 p2 : N) (es : list jv) (d1 d2 : N) (l_acc : list st_elem) : j2res :=
+    match es with
+    | [] => J2Ok d1 d2 l_acc
+    | VObj m :: t =>
+      match jlookup [p1] m, jlookup [p2] m with
+      | Some a, Some b =>
+        match json_value_1d q1 w1 a with
+        | AErr _ => J2Err
+        | AOk (dl, el) =>
+          match json_value_1d q2 w2 b with
+          | AErr _ => J2Err
+          | AOk (dr, er) =>
+            j2loop q1 w1 q2 w2 p1 p2 t (N.max d1 dl) (N.max d2 dr)
+              (match el, er with _ :: _, _ :: _ => l_acc ++ [(el, er)] | _, _ => l_acc end)
+          end
+        end
+      | _, _ => J2Err
+      end
+    | _ :: _ => J2Err
+    end.
+
+  Definition st_from_json (q1 : qty) (w1 : N) (q2 : qty) (w2 : N) (p1 p2 : N) (s : list N) : j2res :=
+    match jparse s with
+    | JOut => J2Out
+    | JReject => J2Err
+    | JVal (VArr es) => j2loop q1 w1 q2 w2 p1 p2 es 0 0 []
+    | JVal _ => J2Err
+    end.
+End JReader.
